@@ -733,6 +733,10 @@ def _exec_run(net, op, ow_op, i, ctx, ctrl_desc, tmpdir, owm):
             if t not in df.index:
                 bad("step missing", logged, f"{name}: time step {t} missing from the recorded frame")
                 break
+            if has_tapctrl and not flags_known:
+                # (after intermediate dumps the failure flags of the steps are not available; with a control loop
+                # inside the step the reference cannot tell a failed step from a recorded one)
+                continue
             # did the last evaluation of this step raise (seen at the run seam)?
             lo_n = step_start.get(pos, 0)
             hi_n = step_start.get(pos + 1, wrapper.n)
